@@ -34,7 +34,11 @@ pub fn main() {
     let mut violations = 0;
     let mut executions = 0;
     // Open known findings of this property are reported as such, not as violations.
-    let known: Vec<(String, String)> = crate::report::load_known().findings.into_iter().filter(|f| f.status == "open" && f.property == prop.id).map(|f| (f.rule, f.key)).collect();
+    // (handed over on the command line by `e2.py`: files are not accessible under Miri's isolation)
+    let known: Vec<(String, String)> = match args.get(6).and_then(|s| serde_json::from_str::<Vec<(String, String)>>(s).ok()) {
+        Some(k) => k,
+        None => crate::report::load_known().findings.into_iter().filter(|f| f.status == "open" && f.property == prop.id).map(|f| (f.rule, f.key)).collect(),
+    };
     // C14 under Miri: only the isolated task-set scenarios (whole simulations with many models and
     // queries are too slow to interpret in the quick tier).
     let comp_only = prop.id == "C14" || prop.id == "C15";
